@@ -1,6 +1,7 @@
 //! Common infrastructure of the calloop runtime-verification harness:
 //! PRNG, argument parsing, result records, kernel probes.
 
+pub mod hist;
 pub mod hookrec;
 pub mod sysx;
 
